@@ -14,7 +14,7 @@ PROPS_MODULE = 'SympdeModel.Props.C01'
 GEN = [leaf.generate]
 EXTRA_THEOREM_MODULES = ['SympdeModel.Gen.LeafThms']
 RULE = ('random well-typed generic expressions (scalar-, vector-, matrix-valued; grad, div, curl, rot, laplace, hessian, '
-        'bracket, dot, cross, inner, sums, products with scalars, powers; depth <= 3/4) on mapped (physical operators) and '
+        'bracket, dot, cross, inner, sums, products with scalars, powers, elementary functions of scalar expressions; depth <= 3/4) on mapped (physical operators) and '
         'unmapped (logical operators) domains of dimension 1-3, built with the real constructors; a case is '
         '(dim, logical, expression as TerminalExpr receives it); non-trivial = contains at least one generic operator; '
         'distinct by serialised request')
@@ -54,6 +54,13 @@ def gen_cases(ctx, n, maxdepth):
             continue      # the constructors themselves refused (C02 territory)
         if not hasattr(e, 'args') or tree_size(e) > MAXSIZE:
             continue
+        if kind == 'scalar' and rng.random() < 0.12:
+            # elementary function of a scalar expression of the fragment (operators included):
+            # its argument must be lowered too
+            fun = rng.choice([sympy.sin, sympy.cos, sympy.exp, sympy.Abs])
+            e = fun(e)
+            if rng.random() < 0.5:
+                e = e * rng.choice(env.sf)
         made += 1
         yield env, kind, e
 
@@ -62,6 +69,17 @@ def has_generic(e, ser):
     if type(e) in ser.op1_rev or type(e) in ser.op2_rev:
         return True
     return any(has_generic(a, ser) for a in getattr(e, 'args', ()))
+
+
+def unmodelled_function_of_operator(e, ser):
+    """an elementary function the expression AST has no `fn` node for (re, atan, atan2, ...: serialised as an
+    opaque `other` node) applied to something that contains a generic operator: the code lowers its
+    arguments (since the `fix:` commit), the model leaves an `other` node untouched"""
+    from harness.exprser import FUNCS
+    if isinstance(e, sympy.Function) and (type(e).__module__ or '').startswith('sympy.functions.') \
+            and not (type(e).__name__ in FUNCS and len(e.args) == 1) and has_generic(e, ser):
+        return True
+    return any(unmodelled_function_of_operator(a, ser) for a in getattr(e, 'args', ()))
 
 
 def correspondence(ctx):
@@ -77,6 +95,9 @@ def correspondence(ctx):
             continue
         line = 'C01 lower %d %s %s' % (env.dim, 'true' if env.logical else 'false', dumps(s))
         if line in seen:
+            continue
+        if unmodelled_function_of_operator(e, ser):
+            c.count('outside-model:function')
             continue
         seen.add(line)
         try:
@@ -137,16 +158,26 @@ def fixed_corpus():
             (e3, 'vector', f * C.cross(F, G), 'corpus:f*cross'),
             (e3, 'vector', C.laplace(C.cross(F, G)), 'corpus:laplace(cross)'),
             (e3, 'vector', C.dot(C.grad(F), G), 'corpus:dot(grad F,G) 3d'),
-            (e3, 'vector', C.dot(C.grad(F), G) + H, 'corpus:dot(grad F,G)+H 3d')]
+            (e3, 'vector', C.dot(C.grad(F), G) + H, 'corpus:dot(grad F,G)+H 3d'),
+            # a compound factor with a Constant AND a coordinate is not a constant coefficient (seed C01-3)
+            (e3, 'vector', C.curl((e3.coords[0] + e3.cst[0]) * F), 'corpus:curl((x+c)*F)'),
+            (e3, 'matrix', C.hessian(sympy.exp(e3.cst[0] * e3.coords[1]) * f), 'corpus:hessian(exp(c*y)*f)')]
     e2 = Env(2, False, tag='k')
     F2, G2, H2 = e2.vf
     h2 = e2.sf[2]
     out += [(e2, 'matrix', C.grad(h2 * C.dot(C.grad(G2), C.grad(h2))), 'corpus:grad(h*dot(grad G,grad h))'),
             (e2, 'vector', C.dot(C.grad(F2), G2), 'corpus:dot(grad F,G) 2d'),
             (e2, 'scalar', C.inner(C.grad(F2), C.grad(G2)), 'corpus:inner(grad,grad) 2d')]
+    # finding C01-function-argument-not-lowered (fixed): elementary functions lower their arguments
+    out += [(e2, 'scalar', sympy.sin(C.div(F2)), 'corpus:sin(div F)'),
+            (e2, 'scalar', h2 * sympy.exp(C.dot(C.grad(h2), C.grad(h2))), 'corpus:h*exp(|grad h|^2)'),
+            (e3, 'vector', sympy.cos(C.div(F)) * C.curl(G), 'corpus:cos(div F)*curl(G)')]
     e1 = Env(1, False, tag='k')
     F1, G1, H1 = e1.vf
+    # finding C01-1d-mixed (fixed): a scalar form and a 1x1 matrix are added as 1x1 matrices
     out += [(e1, 'vector', C.grad(e1.sf[0]) + F1, 'corpus:1d grad(h)+F'),
+            (e1, 'vector', F1 + 2 * C.grad(e1.sf[0]) + C.laplace(G1), 'corpus:1d F+2grad(h)+laplace(G)'),
+            (e1, 'scalar', sympy.sin(C.div(F1)), 'corpus:sin(div F) 1d'),
             (e1, 'scalar', C.inner(F1, G1), 'corpus:inner 1d'),
             (e1, 'scalar', C.inner(C.grad(F1), C.grad(G1)), 'corpus:inner(grad,grad) 1d')]
     return out
@@ -155,6 +186,7 @@ def fixed_corpus():
 def oracle(ctx, factor, seeds):
     """TerminalExpr(e), instantiated, has the value and shape of the classical definition of e, instantiated"""
     o = Oracle()
+    ser = Ser()
     n = (400 if ctx.thorough else 70) * factor
     rng = ctx.rng
     cases = fixed_corpus() + [(env, kind, e, None) for env, kind, e in gen_cases(ctx, n, 3)]
@@ -176,12 +208,16 @@ def oracle(ctx, factor, seeds):
                 # and outside the fragment for which lower_total states totality
                 o.count('refused:second-derivative-of-variable-power')
                 continue
-            k2 = key
-            if k2 is None and env.dim == 1 and impl[1] == 'TypeError' and has_grad_of_scalar(e, 1):
-                k2 = 'corpus:1d grad(h)+F'             # explained by the open finding C01-1d-mixed
+            k2 = key                                   # (C01-1d-mixed is fixed: a 1D TypeError is a violation again)
             if k2 is None and env.dim > 1 and impl[1] in ('ShapeError', 'TypeError') and vector_valued_commutative_factor(e, env.dim):
                 k2 = 'corpus:grad(h*dot(grad G,grad h))'   # explained by the open finding C01-vector-commutative-factor
             o.fail(k2 or ('fail:%d:%s' % (env.dim, e)), 'TerminalExpr raised %s on the supported expression %s (dim %d)' % (impl[1], e, env.dim))
+            continue
+        if has_generic(impl[1], ser):
+            # the result must be in partial-derivative form: no generic operator may survive
+            # (finding C01-function-argument-not-lowered: sin(div(F)) kept Div(F) inside)
+            o.fail(key or ('unlowered:%d:%s' % (env.dim, e)), 'TerminalExpr(%s) (dim %d) still contains a generic operator: %s' % (
+                e, env.dim, str(impl[1])[:200]), lowered=str(impl[1])[:300])
             continue
         ins = Inst(rng, env.dim, env.coords)
         try:
